@@ -1,4 +1,4 @@
-\* C03 thorough (replay 2): 1 thread; instances new(), shared(); property maps {a:1},{a:2,b:1}; all kinds; guard form (frames re-entered);
+\* C03 thorough (replay 2): 1 thread; instances new(), shared(); property maps {a:1},{a:2,b:1}; kinds push/root; guard form (frames re-entered);
 \* <= 3 frames, 1 task, nesting <= 3, panic unwinding; every transition replayed.
 SPECIFICATION Spec
 CONSTANTS
@@ -6,7 +6,7 @@ CONSTANTS
     StoreOf <- MC_Store2
     NKeys = 2
     PropChoices <- MC_Props2
-    Kinds <- MC_AllKinds
+    Kinds <- MC_PushRoot
     Forms <- MC_Guard
     MaxFrames = 3
     MaxTasks = 1
